@@ -101,7 +101,7 @@ def entries(pym, seed, thorough=False):
                            ("ji,jk,kl->il", [V, A, V]), ("ij->", [A]), ("ij,jk->ik", [A, B]), ("ij,j->i", [Ac, u]),
                            ("ij,j->i", [A, u + 1j * v]), ("i,i->", [u + 1j * v, v + 0j])):
             add('EinSum', dict(expr=expr, cplx=[bool(np.iscomplexobj(a)) for a in args]),
-                lambda si, so, expr=expr: pym.EinSum(si, so, expression=expr), args)
+                lambda si, so, expr=expr: pym.EinSum(si, so, expression=expr), args, linear=[[k] for k in range(len(args))])
         # ------------------------------------------------------------------ ConcatSignal
         add('ConcatSignal', dict(kinds='vec,scalar,vec'), lambda si, so: pym.ConcatSignal(si, so), [rnd(3), 0.75, rnd(2)], linear=True)
         add('ConcatSignal', dict(kinds='mat,vec'), lambda si, so: pym.ConcatSignal(si, so), [rnd(2, 2), rnd(3)], linear=True)
@@ -193,7 +193,7 @@ def entries(pym, seed, thorough=False):
                 da = dA(r) if dA else (r.standard_normal(A.shape) + (1j * r.standard_normal(A.shape) if np.iscomplexobj(A) else 0))
                 db = r.standard_normal(b.shape) + (1j * r.standard_normal(b.shape) if np.iscomplexobj(b) else 0)
                 return [da, db]
-            add('LinSolve', dict(n=n, kind='dense ' + label), lambda si, so: pym.LinSolve(si, so), [A, b], dirs=dirs)
+            add('LinSolve', dict(n=n, kind='dense ' + label), lambda si, so: pym.LinSolve(si, so), [A, b], dirs=dirs, linear=[[1]])
         for label, A in (('spd', Asym), ('general', Agen)):
             S = sps.csc_matrix(np.where(np.abs(A) > 0.4, A, 0) + np.diag(np.diag(A)) * 0)
             S = sps.csc_matrix(np.triu(S.toarray()) + np.triu(S.toarray(), 1).T) if label == 'spd' else S
@@ -207,7 +207,7 @@ def entries(pym, seed, thorough=False):
                 else:
                     D.data = r.standard_normal(D.data.shape)
                 return [D, r.standard_normal(n)]
-            add('LinSolve', dict(n=n, kind='sparse ' + label), lambda si, so: pym.LinSolve(si, so), [S, b1], dirs=dirs)
+            add('LinSolve', dict(n=n, kind='sparse ' + label), lambda si, so: pym.LinSolve(si, so), [S, b1], dirs=dirs, linear=[[1]])
         add('Inverse', dict(n=n), lambda si, so: pym.Inverse(si, so), [Agen])
         add('Inverse', dict(n=n, cplx=True), lambda si, so: pym.Inverse(si, so), [Agen + 1j * rng.standard_normal((n, n)) * 0.3])
         # SystemOfEquations / StaticCondensation on symmetric sparse matrices (their documented domain)
@@ -226,7 +226,7 @@ def entries(pym, seed, thorough=False):
             xp = rng.standard_normal(len(pre) if nrhs is None else (len(pre), nrhs))
             add('SystemOfEquations', dict(n=n2, npre=npre, nrhs=nrhs),
                 lambda si, so, free=free, pre=pre: pym.SystemOfEquations(si, so, free=free, prescribed=pre), [K, bf, xp], nout=2,
-                dirs=lambda r, bf=bf, xp=xp: [kdirs(r), r.standard_normal(bf.shape), r.standard_normal(xp.shape)])
+                dirs=lambda r, bf=bf, xp=xp: [kdirs(r), r.standard_normal(bf.shape), r.standard_normal(xp.shape)], linear=[[1, 2]])
         nm = int(rng.integers(1, n2 - 1))
         main, rest = np.sort(perm[:nm]), np.sort(perm[nm:])
         add('StaticCondensation', dict(n=n2, nmain=nm),
